@@ -332,12 +332,13 @@ def _more_scopes(E):
             merge = rng.choice(["MIN", "MAX"])
             ret = rng.choice(["NONE", "ANY", "ALL"])
             ops = []
+            dims = [rng.choice(["dict", "dict", "list"]) for _ in range(rank)]
             for _ in range(rng.randrange(1, 7)):
-                key = tuple(rng.choice("xyz") for _ in range(rank))
+                key = tuple((rng.choice("xyz") if d == "dict" else rng.randrange(3)) for d in dims)
                 kind = rng.choice(["update", "set", "read", "combine", "keys"])
                 cands = [[rng.choice([0, 1, 2, "inf"]), rng.choice([None, "a", "b"])] for _ in range(rng.randrange(0, 3))]
                 ops.append([kind, list(key), cands])
-            recipe = {"rank": rank, "merge": merge, "ret": ret, "ops": ops}
+            recipe = {"rank": rank, "dims": dims, "merge": merge, "ret": ret, "ops": ops}
             what = table_replay(recipe, src_root)
             evals += 1
             distinct.add(repr(recipe))
@@ -356,7 +357,8 @@ def _more_scopes(E):
         rank, merge, ret = recipe["rank"], recipe["merge"], recipe["ret"]
         mp, rp = getattr(mod.MergePolicy, merge), getattr(mod.RetentionPolicy, ret)
         worst = inf if merge == "MIN" else -inf
-        table = mod.Table([mod.DictDimension()] * rank, mp, rp)
+        dims = recipe.get("dims") or ["dict"] * rank
+        table = mod.Table([mod.DictDimension() if d == "dict" else mod.ListDimension(3) for d in dims], mp, rp)
         model = {}
         kept = {}  # proxies obtained earlier and kept by the caller
 
@@ -391,6 +393,8 @@ def _more_scopes(E):
             elif kind == "keys":
                 ks = set(table.keys())
                 need = {k[0] for k in model}
+                if dims[0] == "list" and ks != {0, 1, 2}:
+                    return f"keys() of a list dimension of length 3 gives {sorted(ks)}"
                 if not need <= ks:
                     return f"keys() misses written first-level keys {need - ks}"
             kept.setdefault(key, cell(key))
@@ -402,7 +406,7 @@ def _more_scopes(E):
         return None
 
     sd = Standin("dynamic_programming:Table-proxies", table_standin,
-                 describe="150 (2500 thorough) random histories of <= 6 operations on Table of rank 1-3 over keys {x,y,z}; bounded, not a proof")
+                 describe="150 (2500 thorough) random histories of <= 6 operations on Table of rank 1-3, every dimension a DictDimension over keys {x,y,z} or a ListDimension(3); bounded, not a proof")
     sd.replay = table_replay
     E._dp_table_standin = sd
 
